@@ -113,6 +113,19 @@ type rq struct {
 
 func (q *rq) mkey() string { return q.Method + " " + q.Key }
 
+// invalidates: the request is an invalidation of its method+key. That is a property of the
+// request, not of what the middleware chose to do with it: CacheInvalidator is configured, it
+// returns true for this request (it is a pure function of the X-Inv header), and the request goes
+// through the cache (configured method, not bypassed by no-store). Whether the middleware actually
+// consulted the callback is recorded separately (InvTrue); a mixed-case no-store spelling leaves
+// it open whether the request bypasses, so there only an observed call counts.
+func (q *rq) invalidates(cf conf) bool {
+	if q.InvTrue {
+		return true
+	}
+	return q.Inv && cf.Inv && cf.methodOK(q.Method) && !q.NoStore && q.CCLoose != "no-store"
+}
+
 // spec renders the immutable part of the request (safe to call from any goroutine).
 func (q *rq) spec() string {
 	s := fmt.Sprintf("#%d %s %s", q.ID, q.Method, q.Key)
@@ -308,7 +321,6 @@ func newRig(e *ev.Env, c *ev.Case, cf conf) *rig {
 				if q := g.lookup(c); q != nil {
 					g.mu.Lock()
 					q.InvTrue = true
-					g.invMu[q.mkey()] = append(g.invMu[q.mkey()], q)
 					g.mu.Unlock()
 				}
 			}
@@ -573,6 +585,9 @@ func (g *rig) doInline(q *rq) {
 	g.clk++
 	q.E = g.clk
 	q.T1 = g.now()
+	if q.Panic == "" && q.invalidates(g.cf) {
+		g.invMu[q.mkey()] = append(g.invMu[q.mkey()], q)
+	}
 	g.mu.Unlock()
 	if q.Panic == "" {
 		q.Done = true
